@@ -53,7 +53,9 @@ func (k Keeper) ExecuteVote(ctx context.Context, id uint64) error {
 	halfBurnAmountDec := disputeBurnAmountDec.Quo(math.LegacyNewDec(2))
 	halfBurnAmount := halfBurnAmountDec.TruncateInt()
 	voterReward := halfBurnAmount
-	totalVoterPower, err := k.GetSumOfAllGroupVotesAllRounds(ctx, id)
+	// only users, reporters and token holders share the voters' reward (see CalculateReward): the team's vote
+	// alone must not set a pot aside that nobody can claim
+	totalVoterPower, _, err := k.sumOfGroupVotesAllRounds(ctx, id)
 	if err != nil {
 		return err
 	}
@@ -171,9 +173,19 @@ func (k Keeper) RewardReporterBondToFeePayers(ctx context.Context, feePayer sdk.
 }
 
 func (k Keeper) GetSumOfAllGroupVotesAllRounds(ctx context.Context, id uint64) (math.Int, error) {
-	dispute, err := k.Disputes.Get(ctx, id)
+	rewarded, team, err := k.sumOfGroupVotesAllRounds(ctx, id)
 	if err != nil {
 		return math.Int{}, err
+	}
+	return rewarded.Add(team), nil
+}
+
+// sumOfGroupVotesAllRounds returns, over all rounds of the dispute, the votes of the three groups that share the
+// voters' reward (users, reporters, token holders) and, separately, the votes of the team.
+func (k Keeper) sumOfGroupVotesAllRounds(ctx context.Context, id uint64) (math.Int, math.Int, error) {
+	dispute, err := k.Disputes.Get(ctx, id)
+	if err != nil {
+		return math.Int{}, math.Int{}, err
 	}
 
 	sumUsers := uint64(0)
@@ -192,7 +204,7 @@ func (k Keeper) GetSumOfAllGroupVotesAllRounds(ctx context.Context, id uint64) (
 	// process current dispute
 	voteCounts, err := k.VoteCountsByGroup.Get(ctx, id)
 	if err != nil {
-		return math.ZeroInt(), nil
+		return math.ZeroInt(), math.ZeroInt(), nil
 	}
 	processVoteCounts(voteCounts)
 
@@ -210,10 +222,9 @@ func (k Keeper) GetSumOfAllGroupVotesAllRounds(ctx context.Context, id uint64) (
 		processVoteCounts(voteCounts)
 	}
 
-	totalSum := math.NewInt(int64(sumUsers)).
+	rewardedSum := math.NewInt(int64(sumUsers)).
 		Add(math.NewInt(int64(sumReporters))).
-		Add(math.NewInt(int64(sumTokenholders))).
-		Add(math.NewInt(int64(sumTeam)))
+		Add(math.NewInt(int64(sumTokenholders)))
 
-	return totalSum, nil
+	return rewardedSum, math.NewInt(int64(sumTeam)), nil
 }
